@@ -15,8 +15,10 @@ CLAIMS = {
  'C05': ('proof', 'boost_is_highest_fitting, boost_never_below, version_boost_invariant, noboost_exact, capacity_antitone about the model of boost_error_level/encode; expected level recomputed by the Lean spec from decoded segments', ''),
  'C06': ('proof', 'mask_conditions (translated fn0..fn7 = ISO Table 10), score_eq_iso (model of mask_scores = ISO 7.8.3.1 penalty incl. every overlapping 1:1:3:1:1 occurrence), auto_is_first_best (candidate loop returns the first optimum); every candidate of real symbols re-scored by the independent ISO penalty spec', 'N4 is modelled in exact integer arithmetic; equality with the float formula of the code is checked by correspondence.'),
  'C07': ('proof', 'findMode_eq_autoMode, makeSegment_auto, makeSegment_requested_partial (empty content with kanji/hanzi excluded), mode_supported_iff_cci; spec evaluated on exhaustive small scopes of real output', ''),
+ 'C09': ('proof', 'matrix_iter_pixel (unbounded: the iterator yields exactly the (size+2b)s pixel grid with the module formula), matrix_iter_refused, pack_unpack / pack_unpack_xbm (bit packing inverts for depth 1/2/4 and every width), scanline_unpack, up_filter_zero_row, css3_table; every real PNG/PBM/PAM/PPM/XBM/XPM/TXT/ANSI/compact output read back pixel by pixel by the Lean spec (PNG incl. all chunk CRCs, zlib header and Adler-32)', 'PNG palette / tRNS assembly and the PAM/PPM/XPM colour paths are judged on every output, not proved (def PngStreamRows, png_palette open); zlib inflate is done by the harness, bound to the file by the Adler-32 check in Lean.'),
  'C10': ('proof', 'runs_cover, runs_maximal, raster_row, rel_abs (SVG/EPS), y_flip, page_box, pdf_offsets about the model of matrix_to_lines and the vector emitters; every real SVG/EPS/PDF/TeX document parsed and rasterised on the module grid by the Lean spec with exact rationals', 'XML/PS/PDF tokenising and zlib inflate are done by the Python harness (container parsing); the token-level interpreters of the judge are not proved equal to the model (full statement kept as a def).'),
  'C16': ('proof', 'unescape_escape, escaped_has_no_unescaped_delimiter, wifi_roundtrip, mecard_roundtrip, vcard_one_line, vcard_lines, geo_roundtrip, mailto_roundtrip, epc_amount, epc_layout, epc_fits_13M (all unbounded over strings) about the model of helpers.py with escape tables and EPC constants regenerated from the source; every real payload parsed by the Lean spec; symbols of the make_* factories decoded by the reference decoder', 'epc refusal equivalence is compared and judged, not proved (def epc_refusals_statement). str(float), strftime and codec availability are parameters.'),
+ 'C11': ('proof', 'types_iso_partial (every version, module and border: the verbose classifier = ISO region type, except the recorded cell D8), not_types_iso (witness), iter_verbose_pixel, align_tie (kernel, all 44 versions), dark_bit, dark_bit_constants; verbose / plain grids of all 44 sizes and colourful PNG/PPM/SVG outputs judged per module by the Lean spec', '_make_colormap / colorful are judged, not modelled. Known finding D8 reported as KNOWN-FINDING; any other cell is a violation.'),
  'C12': ('proof', 'cli_kwargs_eq_api / ext_mapping_sound (kernel checks over serializer signatures, argparse table and _EXT_TO_KW_MAPPING regenerated from the source), dispatch_* and sequence_names theorems (unbounded over strings) about the model of build_config / save / QRCodeSequence.save; byte identity of all routes (path, stream, data URI, inline, svgz, CLI) compared on the real code and judged by the Lean spec after stripping the documented timestamp lines', 'Proof level for option mapping, dispatch and naming; byte identity across routes is exploration on the implementation (it depends on gzip, base64, file system). Known finding D12 reported as KNOWN-FINDING.'),
  'C14': ('proof', 'spelling_invariance and its lemmas (unbounded over case patterns / numeric strings), excluded_refused, mask/version/symbol_count refusal theorems, no_crash_partial (every stage before _encode raises ValueError-family errors only; assert unreachable) about the model of argument normalisation + encode; exception classes, spelling variants, serializer refusals and CLI exit behaviour judged on the real code over pairwise-complete argument products', 'no_crash is partial: _encode itself is covered under proved preconditions by hypothesis EncodeCoreCrashFree; serializer validation and the CLI are judged, not modelled. Known finding D16 (shadow of C08) reported as KNOWN-FINDING.'),
  'C13': ('proof', 'stream_layout_partial_partial / stream_layout_iff / stream_layout_d1 (model of terminator + padding = ISO tail exactly outside the recorded deviation D1, = predicted deviation on it), iso_tail_fills_capacity, remainder_bits_iso; ISO tail recomputed by the Lean spec on data codewords recovered from real symbols', 'Known finding D1 is reported as KNOWN-FINDING, any other deviation is a violation.'),
